@@ -20,12 +20,13 @@ def run():
             ('D1', {'FixD1': False}, make('SD_DT_p1', 1, 1, 0, [S(1), D(1)], [D(1), T(1)]), 'C03:'),
             ('D2', {'FixD2': False}, make('Da_Db_p1', 2, 1, 0, [D(1), D(2)]), 'C03:'),
             ('D3', {'FixD3': False}, make('S_S_p0', 1, 0, 0, [S(1)], [S(1)]), 'C04:sync-blocked'),
+            ('D5', {'FixD5': False}, make('P_send_dropstream_p1', 1, 1, 0, [P(1, 1), SEND(1, 1), DS(1)], pipes=1), 'C16:'),
             ('D6', {'FixD6': False}, make('steal_panic_p0', 1, 0, 0, [S(1)], [D(1, panic=True), S(1), S(1)], [T(1)]), 'C15:'),
         ]
         for name, off, s, tag in witnesses:
             fixes = dict(engine.FIXES); fixes.update(off)
             r = engine.model_check(s, os.path.join(wd, name), fixes=fixes, timeout=120, workers=4)
-            found = any(t.startswith(tag) for t in r.get('tags', [])) or (r.get('violation') == 'QuiescentOK')
+            found = any(t.startswith(tag) for t in r.get('tags', []))
             print('witness %s (toggle off): %s  states=%s violation=%s tags=%s' % (name, 'FOUND' if found else 'NOT FOUND', r.get('distinct'), r.get('violation'), r.get('tags')))
             ok = ok and found
             r2 = engine.model_check(s, os.path.join(wd, name + 'on'), fixes=engine.FIXES, timeout=180, workers=4)
